@@ -1,5 +1,6 @@
 import PonyVerif.Drive.Util
 import PonyVerif.Model.SharedCache
+import PonyVerif.Model.SharedMemo
 /-
   line-protocol entry for the C22 model: one request = pin table, one program of query requests per thread, the list of
   thread picks and the code variant (`old` = `del`, otherwise `pop`).  With `autoLocal` the thread-local comparison step
@@ -123,5 +124,16 @@ def handle (j : Json) : Except String Json := do
     pure (match soloPins cfg r.key r.vars with
       | none => Json.mkObj [("solo", .null)]
       | some p => Json.mkObj [("solo", jPinned p)])
+  | "memo" =>
+    -- a plain memo cache (lookup key = store key, no re-check) under threads: per step the event
+    let progs ← (← argArr j "progs").mapM natList
+    let sched ← natList (← j.getObjVal? "sched")
+    let m : PonyVerif.Model.Memo.Memo Nat Nat Nat := PonyVerif.Model.Memo.plain id id
+    let r := PonyVerif.Model.SharedMemo.run m (PonyVerif.Model.SharedMemo.State.init progs) sched
+    let evs := r.2.map (fun e => match e with
+      | .none => "none" | .hit => "hit" | .miss => "miss" | .reject => "reject"
+      | .popped _ => "popped" | .stored => "stored")
+    pure (Json.mkObj [("events", .arr (evs.map Json.str).toArray),
+                      ("table", .arr (r.1.table.map (fun kv => jNat kv.1)).toArray)])
   | _ => throw s!"unknown op {op}"
 end PonyVerif.Drive.C22
